@@ -106,6 +106,12 @@ func c01Trees(tier string) []*enode {
 	add(eCall("F", eIdx(eVar("a"), eVar("b"))))
 	add(eNeg(eCall("F", eVar("a"))))
 	add(eCall("G", eNot(eVar("a")), ePost("IS NULL", eVar("b"))))
+	// a function with a side effect on the variables between two occurrences of the same name
+	add(eBin("+", eBin("+", eBin("*", eVar("a"), eConst("2", 2)), eCall("B")), eVar("a")))
+	add(eBin("-", eVar("a"), eBin("*", eCall("B", eVar("a")), eVar("a"))))
+	add(eCall("F", eVar("a"), eCall("B", eVar("b")), eVar("a")))
+	add(eCall("G", eBin("+", eVar("a"), eVar("b")), eCall("B"), eBin("+", eVar("b"), eVar("a")), eCall("B"), eVar("a")))
+	add(eNeg(eBin("+", eCall("B"), eBin("*", eVar("a"), eVar("a")))))
 	// S1: one operator
 	for _, op := range allOps {
 		base := mk(op, c01Leaf(0), c01Leaf(1))
@@ -235,7 +241,7 @@ var c01Styles = []printStyle{{}, {full: true}, {kwCase: 1, compact: true}, {kwCa
 
 type c01Log struct{ calls []string }
 
-func c01Funcs(log *c01Log) functions.IFunctionCollection {
+func c01Funcs(log *c01Log, vars variables.IVariableCollection) functions.IFunctionCollection {
 	fc := functions.NewFunctionCollection()
 	mkf := func(name string, ret func(args []*variants.Variant) *variants.Variant) {
 		fc.Add(functions.NewDelegatedFunction(name, func(args []*variants.Variant, ops variants.IVariantOperations) (*variants.Variant, error) {
@@ -254,6 +260,18 @@ func c01Funcs(log *c01Log) functions.IFunctionCollection {
 		return args[0]
 	})
 	mkf("G", func(args []*variants.Variant) *variants.Variant { return variants.VariantFromInteger(10 + len(args)) })
+	// B has a side effect: every Integer variable of the collection in use gets a new value object
+	// holding one more (operands are read in written order, so later occurrences see the new value)
+	mkf("B", func(args []*variants.Variant) *variants.Variant {
+		if vars != nil {
+			for _, v := range vars.GetAll() {
+				if v.Value() != nil && v.Value().Type() == variants.Integer {
+					v.SetValue(variants.VariantFromInteger(v.Value().AsInteger() + 1))
+				}
+			}
+		}
+		return variants.VariantFromInteger(len(args))
+	})
 	return fc
 }
 
@@ -312,7 +330,7 @@ func c01Run(c *fw.Ctx, tree *enode, tier string) {
 		for _, t := range toks {
 			if v, f := byText[t]; f {
 				vt = append(vt, v)
-			} else if len(t) == 1 && (t[0] >= 'a' && t[0] <= 'd' || t == "F" || t == "G") {
+			} else if len(t) == 1 && (t[0] >= 'a' && t[0] <= 'd' || t == "F" || t == "G" || t == "B") {
 				vt = append(vt, vtok{t, "IDENT", nil})
 			} else if t == "2" {
 				vt = append(vt, vtok{"2", "CONST", 2})
@@ -363,11 +381,11 @@ func c01Run(c *fw.Ctx, tree *enode, tier string) {
 		log1, log2 := &c01Log{}, &c01Log{}
 		var got *variants.Variant
 		var gerr error
-		pv := fw.Try(func() { got, gerr = calc0.EvaluateUsingVariablesAndFunctions(vars1, c01Funcs(log1)) })
+		pv := fw.Try(func() { got, gerr = calc0.EvaluateUsingVariablesAndFunctions(vars1, c01Funcs(log1, vars1)) })
 		var want *variants.Variant
 		wantState := ""
 		pv2 := fw.Try(func() {
-			want, wantState = evalTree(tree, &evalEnv{ops: calc0.VariantOperations(), vars: vars2, funcs: c01Funcs(log2)})
+			want, wantState = evalTree(tree, &evalEnv{ops: calc0.VariantOperations(), vars: vars2, funcs: c01Funcs(log2, vars2)})
 		})
 		c.Eval(1)
 		if pv2 != nil {
